@@ -225,3 +225,9 @@ def check(ctx):
                 else:
                     ctx.holds('R4.rollback_touches_only_results', fsite(f), 'chkpt::rollback only erases results')
             ctx.guard('R4.rollback', fsite(f), rb)
+    # a rolled-back checkpoint continues like the original run only if the state handed to the next
+    # iteration is a function of the stored results alone (no cached state that rollback does not
+    # know about): shared with C19
+    from .common import share
+    share(ctx, 'C19', 'R6/C19.', ['R2.'])
+
